@@ -35,6 +35,38 @@ def grid(tier, rng):
     for (k, r, n1) in ((10, 4, 3), (12, 4, 3), (8, 3, 3), (20, 5, 3), (16, 6, 4), (30, 7, 5), (25, 6, 5), (40, 8, 5), (6, 3, 3), (14, 5, 4)):
         for _ in range(nseeds):
             pts.append((k, r, n1, rng.randrange(1, 2 ** 31 - 1)))
+    # the same counts at the width of an 8-bit type (full re-construction in TLC): 2(n-k) - k*N1 = 256 +- 2, n-k = 255..257
+    for k in (1, 2, 3, 4):
+        for n1 in (3, 4, 6):
+            for r in sorted({(256 + k * n1) // 2 - 1, (256 + k * n1) // 2, (256 + k * n1) // 2 + 1} | ({255, 256, 257} if tier != "quick" else set())):
+                pts.append((k, r, n1, rng.randrange(1, 2 ** 31 - 1)))
+    return pts
+
+
+def width_points(tier, rng):
+    """parameter points at which a count of the matrix construction meets the width of an integer type: with few
+    source columns the completion step adds 2(n-k) - k*N1 entries (every row is brought to two source entries), the
+    number of rows itself crosses 2^15 / 2^16 / 2^8.  The RFC construction is not re-evaluated in TLC there (minutes
+    per session): PchkTrace decides the claim on the observed equations of the session (claimed => they sum to
+    {n-1}; both roles agree)."""
+    pts = []
+    for W in (1 << 16, 1 << 15):
+        for k in (1, 2, 3, 4, 5):
+            for n1 in (4, 6):
+                base = (W + k * n1) // 2
+                for d in (-1, 0, 1):
+                    r = base + d
+                    if r < n1 or k + r > 49000:
+                        continue
+                    nseed = 1 if tier == "quick" else 4
+                    for _ in range(nseed):
+                        pts.append((k, r, n1, rng.choice([1, 2, rng.randrange(1, 2 ** 31 - 1)])))
+    for r in (32767, 32768, 32769, 16384, 40000, 48990):
+        for k in ((1, 3) if tier == "quick" else (1, 2, 3, 4, 7)):
+            pts.append((k, r, 4, rng.randrange(1, 2 ** 31 - 1)))
+    if tier != "quick":
+        for _ in range(60):
+            pts.append((rng.randint(1, 12), rng.randint(3200, 48000), rng.choice([4, 4, 6, 8, 3, 5]), rng.randrange(1, 2 ** 31 - 1)))
     return pts
 
 
@@ -98,6 +130,19 @@ def run(pid, tier):
         lines = gen.join(execs).split("\n")
         api = apicheck.run_api(bdir, drv, lines, spec="PchkTrace")
         mine = apicheck.judge(pid, api, verdict)
+        wapi = None
+        if pid == "C15":
+            # 2b. counts of the construction at the widths of the integer types (claim decided on the observed equations)
+            wpts = width_points(tier, rng)
+            wex = []
+            for (k, r, n1, seed) in wpts:
+                order = [(0, "enc"), (1, "dec")]
+                rng.shuffle(order)
+                wex.append(["create %d 3 %s" % (s, role) for (s, role) in order] +
+                           ["params %d %d %d 1 0 %d %d rnd 0" % (s, k, r, n1, seed) for (s, role) in order] +
+                           ["release %d" % s for (s, role) in order])
+            wapi = apicheck.run_api(bdir, drv, gen.join(wex).split("\n"), spec="PchkTrace")
+            apicheck.judge(pid, wapi, verdict)
         # 3. draw-level binding at sizes the full construction cannot be re-evaluated for: every PRNG call,
         #    drawn index and range argument of a few very large constructions, validated event by event
         big = [(3000, 1500, 3), (8000, 400, 5), (12000, 5000, 4)] if tier == "quick" else \
@@ -147,6 +192,9 @@ def run(pid, tier):
             "uneven_placements_validated": sum(int(x.split(", ")[0]) for r in api["results"] for x in r.get("pstat", [])),
             "completion_entries_validated": sum(int(x.split(", ")[1]) for r in api["results"] for x in r.get("pstat", [])),
             "claim_asked_again_during_sessions": stable["execs"] if stable else 0,
+            "width_boundary_sessions_validated": sum(int(x.split(", ")[2]) for r in wapi["results"] for x in r.get("pstat", [])) if wapi else 0,
+            "width_boundary_sessions_claiming_null": sum(int(x.split(", ")[3]) for r in wapi["results"] for x in r.get("pstat", [])) if wapi else 0,
+            "width_boundary_max_rows": max(p[1] for p in wpts) if wapi else 0,
             "exhaustive": False,
         }
         vlib.write_evidence(pid, tier, "model_checking", cov, time.time() - t0, len(verdict.violations),
